@@ -1,6 +1,6 @@
 package gfd
 
-//verif: mode=bv
+// verif: mode=bv
 func VH_C20_GFDRoundTrip() {
 	fd := vNondetInt("fd")
 	el := vNondetInt("el")
